@@ -16,7 +16,7 @@ ORDINARY = (ValueError, TypeError, IndexError, KeyError, NotImplementedError, Ru
 
 
 # ------------------------------------------------------------------ generation (parent process)
-_WEIGHTS = [("cartesian", 2), ("argcomb", 2), ("field", 2), ("withfield", 2), ("withfield_b", 3), ("rt", 5), ("ufunc", 3), ("filter", 3), ("num", 3),
+_WEIGHTS = [("cartesian", 2), ("argcomb", 2), ("field", 2), ("withfield", 2), ("withfield_b", 3), ("rt", 5), ("ufunc", 3), ("addmasked", 4), ("filter", 3), ("num", 3),
             ("flatten", 5), ("localindex", 5), ("pad", 8), ("fillnone", 10), ("isnone", 8), ("mask", 7), ("singletons", 3), ("firsts", 3),
             ("comb", 3), ("reduce", 6), ("sort", 4), ("concatperm", 3), ("concat0", 2), ("concat2", 5), ("concat1", 3), ("zip", 3), ("unflatten", 3),
             ("same", 2), ("maysame", 2)]
@@ -40,6 +40,8 @@ def _rand_op(rng):
         return rng.choice(["rt_buffers", "rt_pickle", "rt_arrow", "rt_json", "rt_iter"]), {}
     if kind == "ufunc":
         return "ufunc", {"mul": rng.randint(0, 1)}
+    if kind == "addmasked":
+        return "addmasked", {"m": [rng.randint(0, 1) for _ in range(12)], "vw": rng.randint(0, 1)}
     if kind == "filter":
         return "filter", {"k": rng.choice([-1, 0, 2, 4])}
     if kind in ("num", "localindex", "isnone"):
@@ -158,6 +160,8 @@ def _call(ak, np, op, a, A):
         return ak.with_field(A, A[a["key"]], a["new"])
     if op == "ufunc":
         return (A * 2 + 1) if a["mul"] else (A + A)
+    if op == "addmasked":
+        return A + ak.mask(A, np.array(a["m"], dtype=np.bool_), valid_when=bool(a["vw"]))
     if op == "filter":
         return A[A > a["k"]]
     if op == "rt_buffers":
@@ -227,7 +231,7 @@ def h_chain(case, pick, st, stats):
             if '"x":' not in ty and '"a":' not in ty:
                 continue                             # no named records anywhere: a different question
             a["vals"] = (a["vals"] * 4)[:len(cur_list)]
-        if op == "mask":
+        if op in ("mask", "addmasked"):
             a["m"] = (a["m"] * 3)[:len(cur_list)]
         if op == "fillnone":
             isb = _leaf_is_bool(ev["T"])
@@ -237,9 +241,17 @@ def h_chain(case, pick, st, stats):
             break
         ev["args"] = {k: v for k, v in a.items() if not k.startswith("_")}
         meta = {"act": op, "args": ev["args"], "from": A.layout._ljson(), "fromty": ty, "chain": list(hist), "py": 1}
+        def impure():
+            try:
+                return ak.to_list(A) != cur_list
+            except Exception:
+                return True
         try:
             out = _call(ak, np, op, a, A)
         except ORDINARY as e:
+            if impure():
+                rec["problems"].append([meta, "input modified by the operation: the operand reads %s afterwards" % json.dumps(ak.to_list(A))[:200]])
+                break
             ev.update(ok=0, out={"t": "none"})
             meta["lib"] = "%s: %s" % (type(e).__name__, str(e).split("\n")[0][:200])
             rec["events"].append(ev)
@@ -247,6 +259,9 @@ def h_chain(case, pick, st, stats):
             continue
         except Exception as e:
             rec["problems"].append([meta, "not an ordinary exception: %s: %s" % (type(e).__name__, str(e)[:200])])
+            break
+        if impure():
+            rec["problems"].append([meta, "input modified by the operation: the operand reads %s afterwards" % json.dumps(ak.to_list(A))[:200]])
             break
         if isinstance(out, ak.Array):
             try:
